@@ -1,11 +1,16 @@
 /-
-  Kernel-checked ties (C02): timemath.Sgn / Inv / Midpoint as regenerated from /repo's Go
-  source (Gen/Leaf.lean) are the hand-written models of Model/Timemath.lean.
+  Kernel-checked ties (C02): timemath.Sgn / Inv / Midpoint and — third generation of the leaf
+  translator: slices as lists, `len`, bounds-checked indexing, `slices.Sort` — timemath.Median and
+  timemath.FaultTolerantMidpoint themselves, as regenerated from /repo's Go source on every run
+  (Gen/Leaf.lean), are the hand-written models of Model/Timemath.lean: the same result for every
+  slice (of fewer than 2^62 elements), `none` = the panic on the empty slice; the generated
+  definitions' bounds checks never fire.
 -/
 import ScionTime.Gen.Leaf
 import ScionTime.Model.Timemath
+import ScionTime.Proofs.LeafSlices
 namespace ScionTime.LeafTieC02
-open ScionTime.Gen.Leaf
+open ScionTime ScionTime.Gen.Leaf ScionTime.GoLemmas ScionTime.LeafSlices
 
 theorem C02_leaf_Midpoint (x y : Int64) : timemath_Midpoint x y = Timemath.midpoint x y := rfl
 
@@ -24,5 +29,81 @@ theorem C02_leaf_Sgn (d : Int64) : (timemath_Sgn d).toInt = Timemath.sgn d := by
   · by_cases h2 : d > 0
     · simp [h1, h2]
     · simp [h1, h2]
+
+/-! ### Median and FaultTolerantMidpoint (slices) -/
+
+theorem C02_leaf_FaultTolerantMidpoint (ds : List Int64) (hl : ds.length < 4611686018427387904) :
+    timemath_FaultTolerantMidpoint ds = (Timemath.ftm ds).map Prod.fst := by
+  unfold timemath_FaultTolerantMidpoint Timemath.ftm
+  have hn := len_toInt ds hl
+  have h3 : (3 : Int64).toInt = 3 := by decide
+  have h1 : (1 : Int64).toInt = 1 := by decide
+  have h0 : (0 : Int64).toInt = 0 := by decide
+  by_cases he : ds = []
+  · subst he; rfl
+  · have hpos : 0 < ds.length := List.length_pos_iff.mpr he
+    have hne : (Go.len ds == (0 : Int64)) = false := by
+      rw [beq_eq_false_iff_ne]; intro h
+      have := congrArg Int64.toInt h; rw [hn, h0] at this; omega
+    have hemp : ds.isEmpty = false := by simp [he]
+    simp only [hne, hemp, Bool.false_eq_true, if_false, sortI64_eq]
+    have hls := length_sort64 ds
+    -- f = (n-1)/3
+    have hm1 : (Go.len ds - 1).toInt = (ds.length : Int) - 1 := by
+      rw [toInt_sub_of_fits _ _ (by rw [hn, h1]; omega) (by rw [hn, h1]; omega), hn, h1]
+    have hf : ((Go.len ds - 1) / 3).toInt = (((ds.length - 1) / 3 : Nat) : Int) := by
+      rw [toInt_div_pos _ _ (by rw [h3]; omega), hm1, h3, Int.tdiv_eq_ediv_of_nonneg (by omega)]
+      omega
+    have hg : (Go.len ds - 1 - (Go.len ds - 1) / 3).toInt = ((ds.length - 1 - (ds.length - 1) / 3 : Nat) : Int) := by
+      rw [toInt_sub_of_fits _ _ (by rw [hm1, hf]; omega) (by rw [hm1, hf]; omega), hm1, hf]
+      omega
+    rw [idx_in _ _ _ hf (by omega), idx_in _ _ _ hg (by omega)]
+    simp only [Option.bind_some, Option.map_some, Timemath.ftmSorted, hls]
+    rfl
+
+theorem C02_leaf_Median (ds : List Int64) (hl : ds.length < 4611686018427387904) :
+    timemath_Median ds = (Timemath.median ds).map Prod.fst := by
+  unfold timemath_Median Timemath.median
+  have hn := len_toInt ds hl
+  have h2 : (2 : Int64).toInt = 2 := by decide
+  have h1 : (1 : Int64).toInt = 1 := by decide
+  have h0 : (0 : Int64).toInt = 0 := by decide
+  by_cases he : ds = []
+  · subst he; rfl
+  · have hpos : 0 < ds.length := List.length_pos_iff.mpr he
+    have hne : (Go.len ds == (0 : Int64)) = false := by
+      rw [beq_eq_false_iff_ne]; intro h
+      have := congrArg Int64.toInt h; rw [hn, h0] at this; omega
+    have hemp : ds.isEmpty = false := by simp [he]
+    simp only [hne, hemp, Bool.false_eq_true, if_false, sortI64_eq]
+    have hls := length_sort64 ds
+    have hi : (Go.len ds / 2).toInt = ((ds.length / 2 : Nat) : Int) := by
+      rw [toInt_div_pos _ _ (by rw [h2]; omega), hn, h2, Int.tdiv_eq_ediv_of_nonneg (by omega)]
+      omega
+    have hmod : (Go.len ds % 2).toInt = ((ds.length % 2 : Nat) : Int) := by
+      rw [Int64.toInt_mod, hn, h2, Int.tmod_eq_emod_of_nonneg (by omega)]
+      omega
+    by_cases hodd : ds.length % 2 = 0
+    · have hc : (Go.len ds % 2 != (0 : Int64)) = false := by
+        rw [bne_eq_false_iff_eq]; apply Int64.toInt_inj.mp; rw [hmod, h0, hodd]; rfl
+      have hi1 : (Go.len ds / 2 - 1).toInt = ((ds.length / 2 - 1 : Nat) : Int) := by
+        rw [toInt_sub_of_fits _ _ (by rw [hi, h1]; omega) (by rw [hi, h1]; omega), hi, h1]
+        omega
+      simp only [hc, Bool.false_eq_true, if_false]
+      rw [idx_in _ _ _ hi1 (by omega), idx_in _ _ _ hi (by omega)]
+      simp only [Option.bind_some, Option.map_some, Timemath.medianSorted, hls, hodd]
+      rfl
+    · have hc : (Go.len ds % 2 != (0 : Int64)) = true := by
+        rw [bne_iff_ne]; intro h
+        have := congrArg Int64.toInt h; rw [hmod, h0] at this; omega
+      simp only [hc, if_true]
+      rw [idx_in _ _ _ hi (by omega)]
+      simp only [Option.bind_some, Option.map_some, Timemath.medianSorted, hls]
+      simp [hodd]
+
+/-- non-vacuity and a concrete reading: four values with one wild outlier; the empty slice panics -/
+example : timemath_FaultTolerantMidpoint [5, 1000000, -3, 9] = some 7 ∧
+    timemath_Median [5, 1000000, -3, 9] = some 7 ∧
+    timemath_Median [] = none ∧ timemath_FaultTolerantMidpoint [] = none := by decide
 
 end ScionTime.LeafTieC02
